@@ -178,6 +178,17 @@ def scenario_for(seed, index, tier):
         # no status connection is expected: the first TCP connection is the
         # login connection
         sc['server']['conns'] = sc['server']['conns'][1:]
+    if call == 'status' and status['mode'] == 'reply' and \
+            rng.random() < 0.15:
+        # two threads ask the same object for a status query at the same
+        # time: one of them is refused (unless they happen not to overlap),
+        # and the refused call disturbs nothing
+        sc['twin'] = True
+        sc['handle_status'] = 'custom'
+        twin_conn = copy.deepcopy(sc['server']['conns'][0])
+        sc['server']['conns'] = [sc['server']['conns'][0], twin_conn]
+        sc['sched']['granularity'] = 'line'
+        return sc
     if call == 'connect' and not single and rng.random() < 0.1:
         # the TCP connect for the login connection (the second one) is
         # refused: that is an error to report, not a reason to try the
@@ -348,6 +359,29 @@ def execute(scenario, tape):
                                'exits': list(st['exits'])}
                 del st['errs'][:]
                 del st['exits'][:]
+            if scenario.get('twin'):
+                st['twin_status'] = [[], []]
+                st['twin_ping'] = [[], []]
+                st['twin_calls'] = [None, None]
+
+                def one(i):
+                    def run():
+                        hp = {'custom': st['twin_ping'][i].append,
+                              'default': None,
+                              'off': False}[scenario['handle_ping']]
+                        st['twin_calls'][i] = w.api(
+                            'status', conn.status,
+                            handle_status=st['twin_status'][i].append,
+                            handle_ping=hp)
+                    return run
+                w.sim.spawn(one(1), 'user1')
+                one(0)()
+                w.wait_until(lambda: st['twin_calls'][1] is not None,
+                             60000000)
+                st['call'] = st['twin_calls'][0]
+                st['quiet'] = w.wait_until(
+                    lambda: common.all_net_done(w.sim), 60000000)
+                return
             if scenario['call'] == 'status':
                 hs = {'custom': st['status_calls'].append, 'default': None,
                       'off': False}[scenario['handle_status']]
@@ -413,6 +447,9 @@ def check(scenario, w, st, res):
         return
     if sim.end_state != 'done':
         V.append(('C09/%s' % sim.end_state, repr(sim.end_detail)))
+        return
+    if scenario.get('twin'):
+        check_twin(scenario, w, st, res)
         return
     if not st['call'].ok:
         V.append(('C09/call-raised:%s' % type(st['call'].exc).__name__,
@@ -627,6 +664,50 @@ def check(scenario, w, st, res):
         V.append(('C09/networking-thread-alive', None))
     if sim.stats.get('join-wait'):
         res.probes['successor-waited-in-join'] = 1
+
+
+def check_twin(scenario, w, st, res):
+    V = res.violations
+    calls = st.get('twin_calls') or [None, None]
+    res.obligations += 6
+    if any(c is None for c in calls):
+        V.append(('C09/twin:call-did-not-return', None))
+        return
+    accepted = [i for i, c in enumerate(calls) if c.ok]
+    for i, c in enumerate(calls):
+        if not c.ok and type(c.exc).__name__ != 'InvalidState':
+            V.append(('C09/twin:call-raised:%s' % type(c.exc).__name__,
+                      str(c.exc)[:100]))
+            return
+    if not accepted:
+        V.append(('C09/twin:both-refused', None))
+        return
+    obj = json.loads(scenario['status']['json'])
+    apps = w.server.apps
+    if len(apps) != len(accepted):
+        V.append(('C09/twin:tcp-connection-count',
+                  {'connections': len(apps), 'accepted': len(accepted)}))
+        return
+    for i in (0, 1):
+        n = len(st['twin_status'][i])
+        if i in accepted and st['twin_status'][i] != [obj]:
+            V.append(('C09/twin:accepted-query-handler-calls', {'calls': n}))
+            return
+        if i not in accepted and (n or st['twin_ping'][i]):
+            V.append(('C09/twin:refused-query-handler-called', {'calls': n}))
+            return
+    if st['errs']:
+        V.append(('C09/twin:error-reported:%s'
+                  % type(st['errs'][0]).__name__, str(st['errs'][0])[:120]))
+        return
+    if any(not a.fin_seen for a in apps) or not st.get('quiet'):
+        V.append(('C09/twin:connection-left-open', None))
+    if len(st['exits']) != len(accepted):
+        V.append(('C09/twin:exit-callback-count',
+                  {'exits': len(st['exits']), 'accepted': len(accepted)}))
+    res.probes['two-threads-query-at-once'] = 1
+    if len(accepted) == 1:
+        res.probes['twin-query-refused'] = 1
 
 
 def shrink_scenario(sc):
